@@ -151,6 +151,24 @@ Theorem C04_forced_rerun_completes_np24 : forall n w' fs t o,
 Proof. exact forced24. Qed.
 Print Assumptions C04_forced_rerun_completes_np24.
 
+(* First run / any run: every NP2.4 run that gets past the "already exists" test — without overwrite
+   on a directory with none of the shank folders, or with overwrite — and is not interrupted returns
+   1 with the same complete, valid output, from ANY directory in which the input exists.  (Totality:
+   a fault-free run never raises.) *)
+Theorem C04_run_past_exists_test_completes_np24 : forall n w' fs t o ow,
+  (t = TBin \/ t = TCbin) -> input_state NP24 n fs t = Present -> already24 ow fs n = false ->
+  let out := run_once NP24 n (S w') fs (mkRun t o ow None None None) in
+  let tf := target_form t in
+  out_outcome out = Status 1 /\ out_checked out = o_post o /\
+  (forall k, (k < n)%nat ->
+     out_fs out (PDir k) = Complete /\
+     out_fs out (PFile (Shank k Ap) FMeta) = Complete /\ out_fs out (PFile (Shank k Lf) FMeta) = Complete /\
+     out_ok (o_comp o) (out_fs out) (Shank k Ap) /\ out_ok (o_comp o) (out_fs out) (Shank k Lf)) /\
+  out_fs out (PFile Orig tf) = (if o_post o && o_del o then Absent else fs (PFile Orig tf)) /\
+  forall f, f <> tf -> out_fs out (PFile Orig f) = fs (PFile Orig f).
+Proof. exact run24_completes. Qed.
+Print Assumptions C04_run_past_exists_test_completes_np24.
+
 (* Forced re-run, NP2.1: same, for the lf file next to the original; with
    compress set and a plain .bin given, the original ends as .cbin + .ch with
    the .bin removed; otherwise it is untouched. *)
@@ -209,6 +227,22 @@ Theorem C04_subset_verification_needs_coverage : forall fs sub n,
     fs (PFile (Shank k Ap) FBin) = Complete /\ fs (PFile (Shank k Ap) FMeta) = Complete.
 Proof. exact verify_cover_spec. Qed.
 Print Assumptions C04_subset_verification_needs_coverage.
+
+(* ... and conversely: coverage + completeness is all the comparison needs. *)
+Theorem C04_subset_verification_iff : forall fs sub n,
+  verify_cover fs sub n = true <->
+  ((forall k, (k < n)%nat -> In k sub) /\
+   (forall k, In k sub -> fs (PFile (Shank k Ap) FBin) = Complete /\ fs (PFile (Shank k Ap) FMeta) = Complete)).
+Proof.
+  intros fs sub n. split.
+  - intros H. split.
+    + intros k Hk. apply (verify_cover_spec _ _ _ H k Hk).
+    + intros k Hk. unfold verify_cover in H. apply andb_true_iff in H as [_ Ha].
+      rewrite forallb_forall in Ha. specialize (Ha k Hk). apply andb_true_iff in Ha as [A B].
+      split; apply complete_true; assumption.
+  - intros [A B]. apply verify_cover_intro; assumption.
+Qed.
+Print Assumptions C04_subset_verification_iff.
 
 Example C04_example_subset_run_keeps_original :
   let o := run_once NP24 4 2 (init_fs false)
@@ -317,4 +351,41 @@ Proof. vm_compute. repeat split. Qed.
 Example C04_example_crash_before_delete :
   let o := run_once NP24 2 2 (init_fs false) (mkRun TBin (mkO true true true) false (Some 36%nat) None None) in
   out_outcome o = Raised ECrash /\ out_checked o = true /\ out_fs o (PFile Orig FBin) = Complete.
+Proof. vm_compute. repeat split. Qed.
+
+(* ---- the hypotheses of the theorems above are satisfiable on non-trivial inputs ---- *)
+(* rerun_noop / complete_run_then_rerun_noop: a complete run, then a plain re-run *)
+Example C04_example_rerun :
+  let r := mkRun TBin (mkO true false true) false None None None in
+  let fs1 := out_fs (run_once NP24 2 2 (init_fs false) r) in
+  out_outcome (run_once NP24 2 2 (init_fs false) r) = Status 1 /\
+  input_state NP24 2 fs1 TBin = Present /\ fs1 (PDir 1) = Complete /\
+  out_outcome (run_once NP24 2 2 fs1 r) = Status 0 /\ out_trace (run_once NP24 2 2 fs1 r) = [].
+Proof. vm_compute. repeat split. Qed.
+
+(* forced re-run / run past the exists-test: from a directory left by a run interrupted in the
+   middle of compressing shank 0 (stale .cbin_tmp, partial outputs) *)
+Example C04_example_forced_rerun :
+  let fs1 := out_fs (run_once NP24 2 2 (init_fs false)
+                       (mkRun TBin (mkO true false true) false (Some 17%nat) None None)) in
+  fs1 (PFile (Shank 0 Ap) FTmp) = Partial /\ input_state NP24 2 fs1 TBin = Present /\
+  already24 true fs1 2 = false /\ already24 false fs1 2 = true /\
+  out_outcome (run_once NP24 2 2 fs1 (mkRun TBin (mkO true true true) true None None None)) = Status 1.
+Proof. vm_compute. repeat split. Qed.
+
+(* np21_replaced_only_by_complete_cbin: interrupted between the rename and the unlink of the .bin *)
+Example C04_example_np21_interrupted :
+  let o := run_once NP21 0 2 (init_fs false) (mkRun TBin (mkO false false true) false (Some 8%nat) None None) in
+  out_outcome o = Raised ECrash /\ out_fs o (PFile Orig FBin) = Complete /\ out_fs o (PFile Orig FCbin) = Complete.
+Proof. vm_compute. repeat split. Qed.
+
+(* object_all_call_sequences_safe: a sequence with every kind of call, ending with a legitimate
+   deletion through the separate methods *)
+Example C04_example_object_calls :
+  let cs := [CProcess false (Some 20%nat) None; CProcess true None None; CCheck None None;
+             CSetOpts (mkO false true false); CDelete None; CProcess true None None] in
+  forallb admissible cs = true /\
+  let '(ob, fs) := obj_after NP24 2 2 (new_obj (mkO true false false) false) (init_fs false) cs in
+  ob_checked ob = true /\ ob_closed ob = true /\ fs (PFile Orig FBin) = Absent /\
+  fs (PFile (Shank 1 Ap) FBin) = Complete /\ fs (PFile (Shank 1 Ap) FMeta) = Complete.
 Proof. vm_compute. repeat split. Qed.
